@@ -63,7 +63,7 @@ Proof.
   - exists (fun e => e). split; [apply skel_id | rewrite map_id; auto].
   - assert (S1 : exists f, skel_pres f /\ ua_step cur a = map f cur).
     { unfold ua_step. destruct (by_id cur a); [|exists (fun e => e); split; [apply skel_id | rewrite map_id; auto]].
-      destruct (is_alias e && negb (e_dir e)); [apply resolve_skel|].
+      destruct (is_alias e && _); [apply resolve_skel|].
       exists (fun e => e); split; [apply skel_id | rewrite map_id; auto]. }
     destruct S1 as (f1 & F1 & E1). rewrite E1.
     destruct (IHids (map f1 cur)) as (f2 & F2 & E2). rewrite E2.
@@ -428,15 +428,14 @@ Proof.
   destruct (e_dist j); [|repeat split]. destruct (n =? e_id d); repeat split.
 Qed.
 
-Lemma clear_one_skel : forall c deref dels, skel_pres (clear_one c deref dels).
+Lemma clear_one_skel : forall deref dels, skel_pres (clear_one deref dels).
 Proof.
-  intros c deref dels. unfold clear_one. induction dels; simpl; intro j; [repeat split|].
+  intros deref dels. unfold clear_one. induction dels; simpl; intro j; [repeat split|].
   match goal with |- context[fold_left ?F dels ?J] => specialize (IHdels J); set (J' := J) in * end.
   assert (S1 : e_id J' = e_id j /\ e_nid J' = e_nid j /\ e_name J' = e_name j /\ e_ty J' = e_ty j /\
                e_meta J' = e_meta j /\ e_par J' = e_par j /\ e_kids J' = e_kids j /\ e_fl J' = e_fl j).
   { unfold J'. destruct (is_constlike a && deref).
-    - destruct (fx_derefclear c); [|repeat split].
-      match goal with |- context[clear_derived a ?X] => destruct (clear_derived_skel a X) as (a1&a2&a3&a4&a5&a6&a7&a8) end.
+    - match goal with |- context[clear_derived a ?X] => destruct (clear_derived_skel a X) as (a1&a2&a3&a4&a5&a6&a7&a8) end.
       repeat split; auto.
     - apply clear_derived_skel. }
   destruct S1 as (a1&a2&a3&a4&a5&a6&a7&a8). destruct IHdels as (b1&b2&b3&b4&b5&b6&b7&b8).
@@ -550,12 +549,12 @@ Proof.
   clearbody chk. destruct chk as [l1 refused]. simpl in CK. destruct CK as (f1 & F1 & EQ1). subst l1.
   destruct refused; [simpl; apply Inv_map_skel; auto|].
   destruct (del_refs (map f1 (s_ents s)) E (s_ref s) (s_fref s)) as [rf' fr'] eqn:DR.
-  set (g := clear_one c (N.testbit flags 2) (E :: (if e_meta E then [] else members (s_ents s) (Some E)))).
+  set (g := clear_one (N.testbit flags 2) (E :: (if e_meta E then [] else members (s_ents s) (Some E)))).
   assert (G : skel_pres g) by apply clear_one_skel.
   set (h := fun e => g (f1 e)).
   assert (Hs : skel_pres h) by (apply (skel_comp f1 g); auto).
   cbn [s_ents set_fref set_ref set_ents].
-  change (map (clear_one c (N.testbit flags 2) (E :: (if e_meta E then [] else members (s_ents s) (Some E)))) (map f1 (s_ents s)))
+  change (map (clear_one (N.testbit flags 2) (E :: (if e_meta E then [] else members (s_ents s) (Some E)))) (map f1 (s_ents s)))
     with (map g (map f1 (s_ents s))).
   rewrite (map_map f1 g). fold h.
   set (l3 := map h (s_ents s)).
@@ -575,11 +574,16 @@ Proof.
   { intros n Hn. destruct (FR n Hn) as (x & Ix & A & B & C). exists (g x).
     destruct (G x) as (c1 & c2 & c3 & c4 & _). rewrite c1, c3, c4. repeat split; auto.
     unfold l3, h. rewrite <- map_map. apply in_map. auto. }
+  assert (FIN : forall l0 nx rf fr tfl, inv l0 nx rf fr tfl ->
+                inv (if fx_delalias c then update_aliases true l0 else l0) nx rf fr tfl).
+  { intros l0 nx rf fr tfl H0. destruct (fx_delalias c); auto.
+    destruct (update_aliases_skel true l0) as (fa & FA & EA). rewrite EA. apply inv_map_skel; auto. }
   destruct (e_meta E) eqn:ME.
   - (* a metafield: unlink from the parent, drop the entry *)
     destruct (by_oid l3 (e_par E)) as [P|] eqn:BO; [|simpl; auto].
     apply by_oid_In in BO. destruct BO as (IP & PAR).
     unfold Inv. cbn [fst s_ents s_next s_ref s_fref s_fl set_ents set_fref set_ref].
+    apply FIN.
     rewrite upd_id_map.
     set (gk := fun p : entry => set_fl (set_kids p (swap_remove (e_kids p) (e_id E))) []).
     set (fk := fun x : entry => if e_id x =? e_id P then gk x else x).
@@ -631,6 +635,7 @@ Proof.
       assert (m = fk (h E)) by (eapply uniq_id; eauto using I_nodup; congruence). subst m. congruence.
   - (* a top-level field: drop its subfields and the entry *)
     unfold Inv. cbn [fst s_ents s_next s_ref s_fref s_fl set_ents set_fref set_ref inval_top set_topfl].
+    apply FIN.
     set (dels := map e_id (resort e_name (members (s_ents s) (Some E)))).
     assert (DK : forall d, In d dels -> In d (e_kids E)).
     { intros d I. unfold dels in I. apply in_map_iff in I. destruct I as (kid & A & I). subst d.
@@ -790,9 +795,9 @@ Section RenameCore.
   Qed.
 End RenameCore.
 
-Lemma Inv_ren : forall c s nm new flags, SortedS s -> Inv s -> Inv (fst (op_ren c s nm new flags)).
+Lemma Inv_ren : forall s nm new flags, SortedS s -> Inv s -> Inv (fst (op_ren s nm new flags)).
 Proof.
-  intros c s nm new flags SS IV. unfold op_ren. cbv zeta.
+  intros s nm new flags SS IV. unfold op_ren. cbv zeta.
   destruct (find_nd (s_ents s) nm) as [E|] eqn:FE; [|simpl; auto].
   assert (IE : In E (s_ents s)) by (eapply find_nd_In; eauto).
   destruct (e_ty E =? T_INDEX); [simpl; auto|].
